@@ -64,6 +64,7 @@ def build(ctx, chain=False, discrete=False):
         L, d = 0, rng.choice([0, 0, 1])
         cash0 = 1e7
         userate = False
+        hole = None
     else:
         pool = [ETF("A"), ETF("B"), gen.SpotMult("L10", 10.0), ES(2021, 3), ZN(2021, 3), gen.UserFuture("F1", 5, 0.3), gen.UserSpot("U3", 3.0), gen.AssetFuture("AF", 20, 0.2)]
         rng.shuffle(pool)
@@ -83,21 +84,32 @@ def build(ctx, chain=False, discrete=False):
             evs.append(EventNBBO(t, c, px[c] * (1 - sp / 2), px[c] * (1 + sp / 2)))
 
         userate = rng.random() < 0.6
+        # a sparse stream: one timestep has no bar of its own - all it bears is a tick stamped within the latency
+        # after the previous timestep (so it lives in the latent partition only); the next one starts with a tick
+        # as well (two decisions may not share a stamp, DESIGN 4.2-c)
+        hole = rng.randint(1, n - 2) if (L >= 5 and n >= 5 and rng.random() < 0.4) else None
         for k, t in enumerate(grid):
-            for c in cs:
-                q(t, c)
-            if userate:
-                r_ = rng.choice([0, 0.01, 0.05, -0.005])
-                evs.append(EventNBBO(t, rate, r_, r_))
+            if k != hole:
+                for c in cs:
+                    q(t, c)
+                if userate:
+                    r_ = rng.choice([0, 0.01, 0.05, -0.005])
+                    evs.append(EventNBBO(t, rate, r_, r_))
+            if hole is not None and k in (hole - 1, hole):
+                q(t + timedelta(seconds=L / 2), rng.choice(cs))
             if k < n - 1:
                 for off in [L - 1e-3, L, L + 1e-3, gap / 2]:
-                    if 0 < off < gap and rng.random() < 0.5:
+                    if 0 < off < gap and rng.random() < 0.5 and not (k + 1 == hole and off > L):
                         q(t + timedelta(seconds=off), rng.choice(cs))
         cash0 = rng.choice([100, 1e4, 1e6])
     rng.shuffle(evs)
     i0 = 0
     folds = None
-    if not chain and rng.random() < 0.3 and n > 4:
+    if not chain and n > 4 and hole is not None and rng.random() < 0.6:
+        i0 = hole                       # the episode starts AT the bar-less timestep
+        folds = {"training-set": [grid[i0], grid[-1]]}
+        ctx.cat("fold-starts-at-latent-only-timestep")
+    elif not chain and rng.random() < 0.3 and n > 4:
         i0 = rng.randint(1, n - 3)
         folds = {"training-set": [grid[i0], grid[-1]]}
     tr = Transmitter(grid, folds)
